@@ -57,6 +57,43 @@ def t_ogd(ctx, it):
   ctx.oblige("_ogd_update_fn.post.state-keys", sorted(new.keys()) == ["t", "w"])
 
 
+def mk_binding(alg):
+  """generate_init_update is a FUNCTION of its arguments: the update it returns for a second set of hyper-parameters
+  (same shape, algorithm and sketch size) uses those hyper-parameters, not the ones of an earlier call in the same
+  process (x delta x learning rate of the property; no hidden memoisation)."""
+
+  def t(ctx, it):
+    m = it.load_module(AL)
+    n = 3
+    lr1, lr2 = spec.fresh_real("lr1"), spec.fresh_real("lr2")
+    d1, d2 = spec.fresh_real("delta1", lo=0), spec.fresh_real("delta2", lo=0)
+    A = m.Algorithm[alg]
+    init1, upd1 = m.generate_init_update((n,), m.HParams(delta=d1, lr=lr1, sketch_size=0, algorithm=A))
+    init2, upd2 = m.generate_init_update((n,), m.HParams(delta=d2, lr=lr2, sketch_size=0, algorithm=A))
+    i = sk(ctx, "i", n)
+    w = T.opaque("w", (n,))
+    g = T.opaque("g", (n,))
+    if alg == "OGD":
+      t0 = spec.fresh_real("t", lo=0)
+      new = upd2({"w": w, "t": T.asarray(t0)}, 0.0, g)
+      s_ = sym.ssqrt(new["t"].item() + d2)
+      ctx.oblige("generate_init_update.post: the second binding uses ITS OWN delta and learning rate (OGD closed form)",
+                 (w.at((i,)) - new["w"].at((i,))) * s_ == lr2 * g.at((i,)))
+    else:
+      st0 = init2()
+      ctx.oblige("generate_init_update.post: the second binding initialises with ITS OWN delta (diagonal AdaGrad)",
+                 st0["diag_h"].at((i,)) == d2)
+      h = T.opaque("h", (n,))
+      ctx.assume(h.at((i,)) >= 0)
+      new = upd2({"w": w, "diag_h": h}, 0.0, g)
+      h1 = h.at((i,)) + g.at((i,)) * g.at((i,))
+      ctx.assume(h1 > 0)
+      ctx.oblige("generate_init_update.post: the second binding uses ITS OWN learning rate (diagonal AdaGrad closed form)",
+                 (w.at((i,)) - new["w"].at((i,))) * sym.ssqrt(h1) == lr2 * g.at((i,)))
+
+  return t
+
+
 def t_ada(ctx, it):
   m = it.load_module(AL)
   n = spec.fresh_int("n", lo=1)
@@ -185,6 +222,11 @@ def mk_formula(alg):
 
 
 def tasks(tier):
+  extra_binding = [Task(f"generate_init_update binds its own hyper-parameters[{a}]", mk_binding(a)) for a in ("OGD", "ADA")]
+  return extra_binding + _tasks(tier)
+
+
+def _tasks(tier):
   ts = [Task("OGD", t_ogd), Task("ADA", t_ada)]
   for alg in FACTOR:
     ts.append(Task(f"FD step[{alg}]", mk_fd(alg)))
